@@ -701,6 +701,9 @@ func (tic *TermInCommittee) validateViewChangeVotes(targetBlockHeight primitives
 			return fmt.Errorf("memberId %s appears in more than one confirmation", senderMemberIdStr)
 		}
 		set[senderMemberIdStr] = true
+		if err := tic.keyManager.VerifyConsensusMessage(confirmationBlockHeight, confirmation.SignedHeader().Raw(), confirmation.Sender()); err != nil {
+			return errors.Wrapf(err, "confirmation of memberId %s failed signature verification", senderMemberIdStr)
+		}
 	}
 
 	return nil
